@@ -325,7 +325,7 @@ func ruleC20(c *Check, p *Prog) {
 	collect(w)
 	mkOK := false
 	for _, e := range mk {
-		if e.Args[0] == ldOut && e.Loop == nil && e.Seq < goEv.Seq && S.Implies(goEv.Loop.Guard, e.Guard) {
+		if resolvedOut(e.Args[0], ldOut) && e.Loop == nil && e.Seq < goEv.Seq && S.Implies(goEv.Loop.Guard, e.Guard) {
 			mkOK = true
 		}
 	}
@@ -349,13 +349,7 @@ func ruleC20(c *Check, p *Prog) {
 		nst++
 		v := e.Val
 		okv := false
-		if v.Op == "extract0" && v.Args[0].K == KSym && v.Args[0].Sym.Ev != nil {
-			ce := v.Args[0].Sym.Ev
-			if ce.Kind == "call" && ce.Callee == "path/filepath.Abs" && len(ce.Args) == 1 && ce.Args[0] == ldOut {
-				okv = true
-			}
-		}
-		if v.Op == "call:path/filepath.Clean" && v.Args[0] == ldOut {
+		if v != ldOut && resolvedOut(v, ldOut) {
 			okv = true
 		}
 		if !okv {
@@ -371,7 +365,29 @@ func ruleC20(c *Check, p *Prog) {
 		fmt.Sprintf("the -o value is only normalised by filepath.Abs/Clean of itself (%d assignment(s)): relative and absolute paths both denote the requested directory", nst),
 		strings.Join(rprobs, "; "))
 	// R-DEFAULT-DOC
-	checkGenFlags(c, p, x)
+	checkGenFlags(c, p, x, sum)
+}
+
+// resolvedOut: t is the -o value itself or filepath.Abs / filepath.Clean applied to it (the same directory).
+func resolvedOut(t, ldOut *Term) bool {
+	for depth := 0; depth < 4; depth++ {
+		if t == ldOut {
+			return true
+		}
+		if t.Op == "extract0" && t.Args[0].K == KSym && t.Args[0].Sym.Ev != nil {
+			ce := t.Args[0].Sym.Ev
+			if ce.Kind == "call" && ce.Callee == "path/filepath.Abs" && len(ce.Args) == 1 {
+				t = ce.Args[0]
+				continue
+			}
+		}
+		if t.Op == "call:path/filepath.Clean" && len(t.Args) == 1 {
+			t = t.Args[0]
+			continue
+		}
+		return false
+	}
+	return false
 }
 
 func argAt(e *Event, i int) *Term {
@@ -381,7 +397,7 @@ func argAt(e *Event, i int) *Term {
 	return e.Args[i]
 }
 
-func checkGenFlags(c *Check, p *Prog, x *Ext) {
+func checkGenFlags(c *Check, p *Prog, x *Ext, mainSum *Summary) {
 	S := x.S
 	// flag registrations live in the source-level init function(s)
 	type flagReg struct {
@@ -408,6 +424,23 @@ func checkGenFlags(c *Check, p *Prog, x *Ext) {
 			}
 		})
 	}
+	// ... or are executed by main (directly or through a helper) before flag.Parse()
+	var parse *Event
+	mainSum.Top.Events(func(e *Event, loops []*LoopS) {
+		if e.Kind == "call" && e.Callee == "flag.Parse" && len(loops) == 0 && parse == nil {
+			parse = e
+		}
+	})
+	mainSum.Top.Events(func(e *Event, loops []*LoopS) {
+		if e.Kind == "call" && (e.Callee == "flag.IntVar" || e.Callee == "flag.StringVar") && len(e.Args) == 4 && len(loops) == 0 && parse != nil && e.Seq < parse.Seq && x.S.Implies(parse.Guard, e.Guard) {
+			n, _ := e.Args[1].StrVal()
+			v := ""
+			if e.Args[0].K == KSym && e.Args[0].Sym.Kind == SGlobal {
+				v = e.Args[0].Sym.Canon
+			}
+			regs = append(regs, flagReg{n, e.Args[2], v})
+		}
+	})
 	want := map[string]struct {
 		v   string
 		def *Term
